@@ -125,6 +125,17 @@ theorem afterFrom_l (b : List Char) (T : List Token) (l : Char) (R : Piece) :
     (afterFrom b T l R).l = lastOf l R.text := by
   cases R <;> simp [afterFrom, Piece.text]
 
+theorem opMerges_second : ∀ o c, opMerges o c = true → c ∈ ['+', '-', '=', '>', '*', '!', '&', '|'] := by
+  intro o c hm
+  simp only [opMerges, builtinOpRe, List.any_eq_true] at hm
+  obtain ⟨x, hx, he⟩ := hm
+  have he' : x.toList = [o, c] := by simpa using he
+  have : builtinOps.all (fun x => match x.toList with
+      | [_, c] => ['+', '-', '=', '>', '*', '!', '&', '|'].contains c | _ => true) = true := by decide
+  have h := List.all_eq_true.1 this x hx
+  rw [he'] at h
+  simpa using h
+
 /-- **one piece from a normal situation** -/
 theorem lexP_piece (R : Piece) (hR : R.OK) (b : List Char) (T : List Token) (l : Char) (hf : Flushable b)
     (hs : startOK b l R) :
@@ -143,7 +154,10 @@ theorem lexP_piece (R : Piece) (hR : R.OK) (b : List Char) (T : List Token) (l :
         simp only [isOpRune, Bool.or_eq_true, beq_iff_eq] at this
         rcases this with (((((((rfl | rfl) | rfl) | rfl) | rfl) | rfl) | rfl) | rfl) | rfl <;> simp
       exact opMerges_not_digit o ho c hR.2
-    have h2 := lexP_op2 o l c (T ++ flush b) hR.2 hd
+    have hdot : c ≠ '.' := by
+      have := opMerges_second o c hR.2
+      intro he; subst he; simp at this
+    have h2 := lexP_op2 o l c (T ++ flush b) hR.2 hd hdot
     have := LexP.trans h1 h2
     simpa [afterFrom, Piece.text, Piece.toks, lastOf] using this
   | slash => exact lexP_slash b T l
@@ -189,15 +203,18 @@ def baseOf (σ : Sit) (g : List Char) : List Char × List Token :=
 def afterPiece (σ : Sit) (g : List Char) (R : Piece) : Sit :=
   afterFrom (baseOf σ g).1 (baseOf σ g).2 (lastOf σ.l g) R
 
-/-- the next rune does not interact with the pending situation -/
-def noGlue (q : Pend) (c : Char) : Prop :=
+/-- the text of the next piece does not interact with the pending situation (`c` its first rune);
+`-.` where a signed number may start is followed by a rune that is no digit -/
+def noGlue (q : Pend) (text : List Char) : Prop :=
+  let c := text.headD '\x00'
   match q with
   | .norm _ => True
-  | .op1 o p => opMerges o c = false ∧ signGlues o p c = false
+  | .op1 o p => opMerges o c = false ∧ signGlues o p c = false ∧
+      (dotGlues o p c = true → ∃ x rest, text = '.' :: x :: rest ∧ isDig x = false)
   | .slash _ => c ≠ '/' ∧ c ≠ '*' ∧ opMerges '/' c = false
 
 def stepOK (σ : Sit) (g : List Char) (R : Piece) : Prop :=
-  (∀ c ∈ g, isBlank c = true) ∧ R.OK ∧ startOK (baseOf σ g).1 (lastOf σ.l g) R ∧ (g = [] → noGlue σ.q R.first)
+  (∀ c ∈ g, isBlank c = true) ∧ R.OK ∧ startOK (baseOf σ g).1 (lastOf σ.l g) R ∧ (g = [] → noGlue σ.q R.text)
 
 def LegalFrom (σ : Sit) : List Item → Prop
   | [] => True
@@ -207,11 +224,23 @@ def runSit (σ : Sit) : List Item → Sit
   | [] => σ
   | (g, R) :: rest => runSit (afterPiece σ g R) rest
 
+theorem LexP.settle_minusDot {p x : Char} {rest : List Char} {T T' : List Token} {q' : Pend} {l' : Char}
+    (hp : canStartSignedNumberAfter p = true) (hx : isDig x = false)
+    (h : LexP (.norm []) (T ++ [⟨.symbol, ['-']⟩]) '-' ('.' :: x :: rest) q' T' l') :
+    LexP (.op1 '-' p) T '-' ('.' :: x :: rest) q' T' l' := by
+  intro s hs
+  obtain ⟨s0, h0, he⟩ := feed_settle_minusDot s p x T hs hp hx
+  obtain ⟨s', hf, hs'⟩ := h s0 h0
+  refine ⟨s', ?_, hs'⟩
+  have e : ('.' :: x :: rest) = ['.', x] ++ rest := rfl
+  rw [e, feed_append, he, ← feed_append, ← e]
+  exact hf
+
 theorem LexP.settle_op1 {o p c : Char} {rest : List Char} {T T' : List Token} {q' : Pend} {l' : Char}
-    (hm : opMerges o c = false) (hg : signGlues o p c = false)
+    (hm : opMerges o c = false) (hg : signGlues o p c = false) (hd : dotGlues o p c = false)
     (h : LexP (.norm []) (T ++ [⟨.symbol, [o]⟩]) o (c :: rest) q' T' l') : LexP (.op1 o p) T o (c :: rest) q' T' l' := by
   intro s hs
-  obtain ⟨s0, h0, he⟩ := step_settle_op1 s o p c T hs hm hg
+  obtain ⟨s0, h0, he⟩ := step_settle_op1 s o p c T hs hm hg hd
   obtain ⟨s', hf, hs'⟩ := h s0 h0
   exact ⟨s', by rw [feed_ok_cons, he, ← feed_ok_cons]; exact hf, hs'⟩
 
@@ -223,17 +252,6 @@ theorem LexP.settle_slash {b : List Char} {c : Char} {rest : List Char} {T T' : 
   obtain ⟨s0, h0, he⟩ := step_settle_slash s b c T hs hf h1 h2 hm
   obtain ⟨s', hf', hs'⟩ := h s0 h0
   exact ⟨s', by rw [feed_ok_cons, he, ← feed_ok_cons]; exact hf', hs'⟩
-
-theorem opMerges_second : ∀ o c, opMerges o c = true → c ∈ ['+', '-', '=', '>', '*', '!', '&', '|'] := by
-  intro o c hm
-  simp only [opMerges, builtinOpRe, List.any_eq_true] at hm
-  obtain ⟨x, hx, he⟩ := hm
-  have he' : x.toList = [o, c] := by simpa using he
-  have : builtinOps.all (fun x => match x.toList with
-      | [_, c] => ['+', '-', '=', '>', '*', '!', '&', '|'].contains c | _ => true) = true := by decide
-  have h := List.all_eq_true.1 this x hx
-  rw [he'] at h
-  simpa using h
 
 theorem opMerges_blank (o c : Char) (hc : isBlank c = true) : opMerges o c = false := by
   rw [Bool.eq_false_iff]
@@ -261,7 +279,10 @@ theorem lexP_blank_any (σ : Sit) (hg : σ.Good) (c : Char) (hc : isBlank c = tr
     have hl : l = o := hg.1
     subst hl
     have h := lexP_blank [] (T ++ [⟨.symbol, [l]⟩]) l c hc (Or.inl rfl)
-    have := LexP.settle_op1 (p := p) (opMerges_blank l c hc) (by simp [signGlues, isDig_blank c hc]) h
+    have hcd : c ≠ '.' := by
+      simp only [isBlank, Bool.or_eq_true, beq_iff_eq] at hc
+      rcases hc with ((rfl | rfl) | rfl) | rfl <;> decide
+    have := LexP.settle_op1 (p := p) (opMerges_blank l c hc) (by simp [signGlues, isDig_blank c hc]) (by simp [dotGlues, hcd]) h
     simpa [Sit.all, Pend.owes, flush] using this
   | slash b =>
     have hl : l = '/' := hg.1
@@ -311,15 +332,23 @@ theorem lexP_item (σ : Sit) (hg : σ.Good) (g : List Char) (R : Piece) (h : ste
       have hb : baseOf ⟨.op1 l p, T, l⟩ [] = ([], T ++ [⟨.symbol, [l]⟩]) := by simp [baseOf, Sit.all, Pend.owes]
       rw [hb] at hstart
       have h2 := lexP_piece R hR [] (T ++ [⟨.symbol, [l]⟩]) l (Or.inl rfl) (by simpa using hstart)
-      obtain ⟨hm, hsg⟩ := hglue rfl
+      obtain ⟨hm, hsg, hdg⟩ := hglue rfl
       cases ht : R.text with
       | nil => exact absurd ht hne
       | cons c rest =>
-        have hfirst : R.first = c := by simp [Piece.first, ht]
-        rw [hfirst] at hm hsg
-        rw [ht] at h2
-        have := LexP.settle_op1 hm hsg h2
-        simpa [afterPiece, hb] using this
+        simp only [ht, List.headD_cons] at hm hsg hdg
+        by_cases hd : dotGlues l p c = true
+        · obtain ⟨x, rest', htx, hx⟩ := hdg hd
+          simp only [dotGlues, Bool.and_eq_true, beq_iff_eq] at hd
+          obtain ⟨⟨hl, hp⟩, _⟩ := hd
+          subst hl
+          rw [ht, htx] at h2
+          have := LexP.settle_minusDot hp hx h2
+          rw [htx]
+          simpa [afterPiece, hb, ht, htx] using this
+        · rw [ht] at h2
+          have := LexP.settle_op1 hm hsg (by simpa using hd) h2
+          simpa [afterPiece, hb] using this
     | slash b =>
       have hl : l = '/' := hg.1
       have hf : Flushable b := hg.2
@@ -332,8 +361,7 @@ theorem lexP_item (σ : Sit) (hg : σ.Good) (g : List Char) (R : Piece) (h : ste
       cases ht : R.text with
       | nil => exact absurd ht hne
       | cons c rest =>
-        have hfirst : R.first = c := by simp [Piece.first, ht]
-        rw [hfirst] at hc1 hc2 hm
+        simp only [ht, List.headD_cons] at hc1 hc2 hm
         rw [ht] at h2
         have := LexP.settle_slash hf hc1 hc2 hm h2
         simpa [afterPiece, hb] using this
